@@ -36,6 +36,9 @@ FLAVOURS = {
     "tsan": {"cxx": "g++", "flags": ["-O1", "-g", "-mavx2", "-fopenmp", "-pthread", "-fsanitize=thread",
                                      "-fno-builtin-memcpy", "-fno-builtin-memset", "-fno-builtin-memmove"],
              "ld": ["-fsanitize=thread"], "shim": True},
+    "tsan512": {"cxx": "g++", "flags": ["-O1", "-g", "-mavx2", "-mavx512f", "-D__AVX512__", "-fopenmp", "-pthread", "-fsanitize=thread",
+                                        "-fno-builtin-memcpy", "-fno-builtin-memset", "-fno-builtin-memmove"],
+                "ld": ["-fsanitize=thread"], "shim": True},
     "fillA": {"cxx": "g++", "flags": PROD + ["-ftrivial-auto-var-init=pattern"], "ld": ["-fopenmp"]},
     "fillB": {"cxx": "g++", "flags": PROD + ["-ftrivial-auto-var-init=zero"], "ld": ["-fopenmp"]},
     "fillA512": {"cxx": "g++", "flags": PROD + A512 + ["-ftrivial-auto-var-init=pattern"], "ld": ["-fopenmp"]},
@@ -255,6 +258,35 @@ def classify_death(serr, rc):
     if "ThreadSanitizer" in serr:
         return "tsan"
     return "rc%s" % rc
+
+
+def parse_tsan_logs(pattern):
+    """ThreadSanitizer reports from log files -> {key: excerpt}; key = kind + the first repository frame of each of the two accesses"""
+    out = {}
+    nreports = 0
+    for path in glob.glob(pattern):
+        txt = open(path, errors="replace").read()
+        for blk in txt.split("==================")[1:]:
+            m = re.search(r"WARNING: ThreadSanitizer: ([^(\n]+)", blk)
+            if not m:
+                continue
+            nreports += 1
+            kind = m.group(1).strip().replace(" ", "-")
+            frames = []
+            # split into access sections: each starts with a line ending in ':' that is not a frame
+            for sec in re.split(r"\n\s*\n", blk):
+                first = None
+                for ln in sec.splitlines():
+                    fm = re.match(r"\s+#\d+ (.+?) (/\S+):(\d+)", ln)
+                    if fm and "/src/" in fm.group(2) and "libsanitizer" not in fm.group(2):
+                        fn = re.sub(r"\(.*", "", fm.group(1)).strip()
+                        first = fn + "@" + os.path.basename(fm.group(2))
+                        break
+                if first and ("of size" in sec.split("\n")[0] or "of size" in sec[:200]):
+                    frames.append(first)
+            key = "tsan:%s:%s" % (kind, "|".join(sorted(set(frames[:2]))) or "unknown-frames")
+            out.setdefault(key, blk[:3000])
+    return out, nreports
 
 
 # ----------------------------------------------------------------------------- known findings
